@@ -161,8 +161,58 @@ func mutateHost(r *gen.R, h string) (string, string) {
 	return "evil.example.net", "other-host"
 }
 
+// c13History: the same Origin string is presented for different Hosts in one
+// process (accepted where it is same-origin, then again where it is foreign):
+// the verdict must not depend on what was accepted before.
+func c13History(ctx *core.Ctx, out *core.Out) {
+	r := ctx.R
+	hosts := []string{"bank.example", "shop.example", "shop.example:8443", "10.0.0.1", "[2001:db8::1]"}
+	a := hosts[r.Intn(len(hosts))]
+	b := hosts[r.Intn(len(hosts))]
+	for b == a {
+		b = hosts[r.Intn(len(hosts))]
+	}
+	origin := []string{"https://", "http://"}[r.Intn(2)] + b
+	u := upCfg{SubNil: true, RespNil: true}
+	try := func(host string) bool {
+		q := &hsReq{H: map[string][]string{}, Classes: map[string]string{}, classOf: map[string]int{}, Host: host, Target: "/ws", Method: "GET"}
+		q.set("Connection", []string{"Upgrade"}, cValid)
+		q.set("Upgrade", []string{"websocket"}, cValid)
+		q.set("Sec-Websocket-Version", []string{"13"}, cValid)
+		q.set("Sec-Websocket-Key", []string{someKey}, cValid)
+		q.set("Origin", []string{origin}, cValid)
+		return q.direct(u).conn != nil
+	}
+	steps := []struct {
+		host string
+		want bool
+	}{{a, false}, {b, true}, {a, false}, {b, true}, {a, false}}
+	out.Eval(fmt.Sprintf("hist|%s|%s|%s", a, b, origin), true)
+	for i, st := range steps {
+		got := try(st.host)
+		if got != st.want {
+			sig := "cross-origin-accepted:after-same-origin-was-accepted-elsewhere"
+			if st.want {
+				sig = "same-origin-refused"
+			}
+			out.Violate("C13:"+sig, fmt.Sprintf("step %d of the sequence: Host %q with Origin %q was upgraded=%v, expected %v (earlier steps presented the same Origin to other Hosts)", i, st.host, origin, got, st.want), map[string]interface{}{"host_a": a, "host_b": b, "origin": origin})
+			return
+		}
+		if st.want {
+			out.Count("same_origin_accepted", 1)
+		} else {
+			out.Count("cross_origin_refused", 1)
+		}
+	}
+	out.Count("history_sequences", 1)
+}
+
 func runC13(ctx *core.Ctx, out *core.Out) {
 	r := ctx.R
+	if ctx.Idx%8 == 5 {
+		c13History(ctx, out)
+		return
+	}
 	host := c13Hosts[r.Intn(len(c13Hosts))]
 	realMode := ctx.Idx%4 == 3 || os.Getenv("WSVERIF_C13_REAL") == "1"
 	var origin []string
